@@ -206,6 +206,29 @@ def enum_small(bounds):
 DEEP = ['P', 'E', 'U2', 'AB', 'V', 'L', 'BF', 'DK', 'PR', 'SV', 'DI']
 
 
+def enum_merge_keys(shard, nshards):
+    """Class mappings with a YAML merge key ('<<') or a collection as a key: not
+    'only string keys', so never admitted - whatever the merged pairs are."""
+    i = 0
+    for name in ('P', 'V', 'E', 'D', 'DS', 'U2', 'PR', 'UN'):
+        keys = portfolio.KEYS[name][:4]
+        scals = portfolio.SCALS_BY.get(name, portfolio.SCALS)[:4]
+        for k1 in keys:
+            for v1 in scals:
+                for k2 in keys:
+                    for v2 in scals[:3]:
+                        docs = ['{<<: {%s: %s}}' % (k1, v1),
+                                '{<<: {%s: %s}, %s: %s}' % (k1, v1, k2, v2),
+                                '{%s: %s, <<: {%s: %s}}' % (k2, v2, k1, v1),
+                                '{<<: [{%s: %s}, {%s: %s}]}' % (k1, v1, k2, v2),
+                                '{? [%s] : %s, %s: %s}' % (k1, v1, k2, v2),
+                                '{? {%s: %s} : 1, %s: %s}' % (k1, v1, k2, v2)]
+                        for d in docs:
+                            if i % nshards == shard:
+                                yield {'portfolio': name, 'text': d}
+                            i += 1
+
+
 def _base_phases(tier):
     quick = tier != 'thorough'
     names = sorted(portfolio.MODELS)
@@ -218,6 +241,9 @@ def _base_phases(tier):
     return [
         HypPhase('generated', cases(), 250 if quick else 4000),
         EnumPhase('small_documents', enum_small(b), note),
+        EnumPhase('merge_and_collection_keys', enum_merge_keys,
+                  '8 portfolio models x key/value pairs merged in through <<, before and after '
+                  'ordinary keys, as a list of mappings; sequences and mappings as keys'),
     ]
 
 
